@@ -11,11 +11,20 @@ structure MonSt where
   added : Bool := false
   started : Bool := false
 
+/-- a `Snapshot()` call in progress (controlled schedule): monitor, next static informer to read,
+objects collected so far, the worlds the cluster went through since the call began -/
+structure Conc where
+  id : Nat
+  next : Nat := 0
+  acc : List Entry := []
+  worlds : List World := []
+
 structure St where
   w : World := {}
   mons : List MonSt := []
   rid : List (Key × Nat) := []
   hook : HookDecl := {}
+  conc : Option Conc := none
 
 def ridOf (st : St) (k : Key) : Nat :=
   match st.rid.find? (fun p => p.1 == k) with
@@ -73,7 +82,7 @@ def getMon (st : St) (id : Nat) : Option MonSt := st.mons.find? (·.id == id)
 /-- a cluster operation on objects reaches every added monitor -/
 def worldObj (st : St) (op : COp) : St :=
   let w' : World := { st.w with objs := applyOp st.w.objs op }
-  { st with w := w', mons := st.mons.map (fun x =>
+  { st with w := w', conc := st.conc.map (fun c => { c with worlds := c.worlds ++ [w'] }), mons := st.mons.map (fun x =>
       if x.added then { x with m := (objStep x.mc st.w x.m op).2 } else x) }
 
 def worldNs (st : St) (n : Nat) (lbl : Option Nat) : St :=
@@ -206,6 +215,33 @@ def step (st : St) (toks : List String) : St × String :=
     match id.toNat?.bind (getMon st) with
     | some ms => (st, showSnap (ms.m.snapshot (modelSort (ridOf st))))
     | none => (st, "bad-op")
+  | ["cbegin", id] =>
+    match id.toNat?.bind (getMon st) with
+    | some ms => ({ st with conc := some { id := ms.id, worlds := [st.w] } }, "ok")
+    | none => (st, "bad-op")
+  | ["cread", id] =>
+    match id.toNat?.bind (getMon st), st.conc with
+    | some ms, some c =>
+      if c.id != ms.id then (st, "bad-op") else
+      match ms.m.static[c.next]? with
+      | some inf => ({ st with conc := some { c with next := c.next + 1, acc := c.acc ++ inf.cache } }, "ok")
+      | none => (st, "no-informer")
+    | _, _ => (st, "bad-op")
+  | ["cend", id] =>
+    match id.toNat?.bind (getMon st), st.conc with
+    | some ms, some c =>
+      if c.id != ms.id then (st, "bad-op") else
+      if c.next != ms.m.static.length then (st, s!"reads={c.next}/{ms.m.static.length}") else
+      (st, showSnap (modelSort (ridOf st) c.acc))
+    | _, _ => (st, "bad-op")
+  | "oracle" :: "conc" :: id :: rest =>
+    match id.toNat?.bind (getMon st), st.conc with
+    | some ms, some c =>
+      match (kv? "got" rest).bind (parseSnap ms.mc.kind) with
+      | some got =>
+        ({ st with conc := none }, if concExact (ridOf st) ms.mc c.worlds got then "true" else "false")
+      | none => (st, "bad-op")
+    | _, _ => (st, "bad-op")
   | "oracle" :: "snap" :: id :: rest =>
     match id.toNat?.bind (getMon st) with
     | some ms =>
